@@ -118,6 +118,15 @@ def run(ctx: Ctx):
             ok = er is not None and isinstance(er["spec"], ast.Constant) and str(er["spec"].value).replace(" ", "") == "san,san,sa->s" \
                 and sorted([alias.get(er["x"], "?"), alias.get(er["y"], "?")]) == ["reward_matrix", "transition_matrix"]
             ctx.check(ok, "EVAL-1", f, srd if srd is not None else sv, "r_pi = sum_{a,s'} pi T R", "", "policy reward is not the expectation of R under T and the current policy")
+    # (written after seed C19-e) the prior that enters the KL term and the softmax is the given prior (clamped or not): it has no other writer
+    pi0n = env.get("pi0")
+    if pi0n:
+        pdefs = [n for n in ast.walk(f.node) if isinstance(n, (ast.Assign, ast.AugAssign)) and any(isinstance(t_, ast.Name) and t_.id == pi0n for t_ in (n.targets if isinstance(n, ast.Assign) else [n.target]))]
+        okd = [n for n in pdefs if isinstance(n, ast.Assign) and (pat.m("clamp_zero(policy_prior) if ANY else policy_prior", n.value) is not None
+                                                                  or pat.m("clamp_zero(policy_prior)", n.value) is not None or pat.m("policy_prior", n.value) is not None)]
+        ctx.check(bool(pdefs) and len(okd) == len(pdefs), "EVAL-1", f, [n for n in pdefs if n not in okd][0] if len(okd) != len(pdefs) else (pdefs[0] if pdefs else f.node),
+                  "the prior used by evaluation and improvement is the given prior (optionally clamped away from zero)", "",
+                  "the prior is rewritten before it is used (e.g. renormalised): the KL term and the softmax no longer refer to the prior that was passed in")
     # ---- improvement (found first: it identifies the action-value variable)
     npi, en = pat.first(lp, "V_newpi = torch.softmax(E_arg, E_ax)", env, nodes=lstm)
     qname = None
@@ -260,7 +269,7 @@ def run(ctx: Ctx):
         ctx.check(bool(cvs), "WRAP-1", w, cvs[0] if cvs else w.node, "wrapper reports the solver's converged flag", "", "converged flag is not the solver's")
     else:
         ctx.unknown("WRAP-1", w, w.node, "wrapper result handling", "solver call not bound to a name")
-    for rr, k in (("EVAL-1", 5), ("LOOK-1", 4), ("IMP-1", 3), ("CONV-1", 8), ("WRAP-1", 10), ("TEN-1", 1)):
+    for rr, k in (("EVAL-1", 6), ("LOOK-1", 4), ("IMP-1", 3), ("CONV-1", 8), ("WRAP-1", 10), ("TEN-1", 1)):
         ctx.require(rr, k)
     ctx.assume("at a fixed point of the checked evaluate/improve pair the state values equal w*logsumexp_A(q/w + log pi0) (Geist et al. 2019)")
     ctx.assume("as w -> 0 with a uniform prior the soft Bellman operator tends to the hard one")
